@@ -1,5 +1,5 @@
 //! Arity-generic access to varpro's `SeparableModelBuilder::function` /
-//! `partial_deriv`, which take closures with 1..10 scalar arguments.
+//! `partial_deriv`, which take closures with 1..10 scalar arguments; arities 11..14 go through a user type that implements the `BasisFunction` trait itself.
 
 use crate::sc::Sc;
 use nalgebra::DVector;
@@ -8,6 +8,19 @@ use varpro::prelude::*;
 
 /// slice-style function: (x, arguments in the function's own order) -> values
 pub type SliceFn<T> = Arc<dyn Fn(&DVector<T>, &[T]) -> DVector<T> + Send + Sync>;
+
+/// a user type implementing varpro's public `BasisFunction` trait directly, with an argument count
+/// given by a const generic - this is how a user gets functions of more than ten parameters
+pub struct SliceBasis<T: Sc, const K: usize>(pub SliceFn<T>);
+/// marker for the `ArgList` type parameter of the trait
+pub struct Args<const K: usize>;
+
+impl<T: Sc, const K: usize> BasisFunction<T, Args<K>> for SliceBasis<T, K> {
+    fn eval(&self, x: &DVector<T>, params: &[T]) -> DVector<T> {
+        (self.0)(x, &params[..K])
+    }
+    const ARGUMENT_COUNT: usize = K;
+}
 
 pub fn add_function<T: Sc>(b: SeparableModelBuilder<T>, params: Vec<String>, arity: usize, f: SliceFn<T>) -> SeparableModelBuilder<T> {
     match arity {
@@ -21,7 +34,11 @@ pub fn add_function<T: Sc>(b: SeparableModelBuilder<T>, params: Vec<String>, ari
         8 => b.function(params, move |x: &DVector<T>, a0: T, a1: T, a2: T, a3: T, a4: T, a5: T, a6: T, a7: T| f(x, &[a0, a1, a2, a3, a4, a5, a6, a7])),
         9 => b.function(params, move |x: &DVector<T>, a0: T, a1: T, a2: T, a3: T, a4: T, a5: T, a6: T, a7: T, a8: T| f(x, &[a0, a1, a2, a3, a4, a5, a6, a7, a8])),
         10 => b.function(params, move |x: &DVector<T>, a0: T, a1: T, a2: T, a3: T, a4: T, a5: T, a6: T, a7: T, a8: T, a9: T| f(x, &[a0, a1, a2, a3, a4, a5, a6, a7, a8, a9])),
-        _ => panic!("arity {arity} not supported by varpro (1..10)"),
+        11 => b.function(params, SliceBasis::<T, 11>(f)),
+        12 => b.function(params, SliceBasis::<T, 12>(f)),
+        13 => b.function(params, SliceBasis::<T, 13>(f)),
+        14 => b.function(params, SliceBasis::<T, 14>(f)),
+        _ => panic!("arity {arity} not supported by the harness (1..14)"),
     }
 }
 
@@ -37,6 +54,10 @@ pub fn add_deriv<T: Sc>(b: SeparableModelBuilder<T>, name: String, arity: usize,
         8 => b.partial_deriv(name, move |x: &DVector<T>, a0: T, a1: T, a2: T, a3: T, a4: T, a5: T, a6: T, a7: T| f(x, &[a0, a1, a2, a3, a4, a5, a6, a7])),
         9 => b.partial_deriv(name, move |x: &DVector<T>, a0: T, a1: T, a2: T, a3: T, a4: T, a5: T, a6: T, a7: T, a8: T| f(x, &[a0, a1, a2, a3, a4, a5, a6, a7, a8])),
         10 => b.partial_deriv(name, move |x: &DVector<T>, a0: T, a1: T, a2: T, a3: T, a4: T, a5: T, a6: T, a7: T, a8: T, a9: T| f(x, &[a0, a1, a2, a3, a4, a5, a6, a7, a8, a9])),
-        _ => panic!("arity {arity} not supported by varpro (1..10)"),
+        11 => b.partial_deriv(name, SliceBasis::<T, 11>(f)),
+        12 => b.partial_deriv(name, SliceBasis::<T, 12>(f)),
+        13 => b.partial_deriv(name, SliceBasis::<T, 13>(f)),
+        14 => b.partial_deriv(name, SliceBasis::<T, 14>(f)),
+        _ => panic!("arity {arity} not supported by the harness (1..14)"),
     }
 }
